@@ -122,6 +122,7 @@ func (dr *DatabaseRecovery) loadWithRetry(primaryPath, personalPath string) (*da
 
 	for attempt := 1; attempt <= dr.retryConfig.MaxAttempts; attempt++ {
 		db, err := database.LoadDatabaseWithPersonal(primaryPath, personalPath)
+		verifOnAttempt(attempt, err)
 		if err == nil {
 			return db, nil
 		}
@@ -136,6 +137,7 @@ func (dr *DatabaseRecovery) loadWithRetry(primaryPath, personalPath string) (*da
 		// Don't sleep on the last attempt
 		if attempt < dr.retryConfig.MaxAttempts {
 			delay := dr.calculateDelay(attempt)
+			verifOnDelay(delay)
 			time.Sleep(delay)
 		}
 	}
